@@ -336,7 +336,8 @@ def main(argv=None):
         fullx = comb(n, k) * 2
         for m in (0, 2, fullx - 1, fullx):
             rnd.append(("RandomKXOR", k, n, m, None))
-    for k, n, npl, frac in ((3, 12, 4, .9), (2, 14, 3, .95), (3, 9, 2, 1.0), (2, 8, 1, 1.0)):
+    for k, n, npl, frac in ((3, 12, 4, .9), (2, 14, 3, .95), (3, 9, 2, 1.0), (2, 8, 1, 1.0),
+                            (3, 20, 12, .85), (2, 30, 6, .9), (3, 10, 10, .97), (2, 12, 5, 1.0)):
         planted = [[ck.rng.choice((-1, 1)) * v for v in range(1, n + 1)] for _ in range(npl)]
         import itertools
         adm = sum(1 for vs in itertools.combinations(range(1, n + 1), k) for sg in itertools.product((1, -1), repeat=k)
